@@ -43,14 +43,26 @@ fn num_cpus() -> usize {
 pub fn family_of(prop: &str) -> &'static str {
     match prop {
         "C01" | "C02" | "C03" | "C04" | "C05" | "C07" | "C11" | "C12" | "C13" | "C14" | "C15" => "D",
+        "C06" => "Z",
+        "C09" => "W9",
         _ => "?",
     }
 }
 
 /// One seed of one property: returns a replay record for the first violation found.
-pub fn explore(prop: &str, seed: u64, thorough: bool, st: &mut Stats) -> Vec<Replay> {
+/// `index` is the position of the seed in the global seed sequence (0, 1, 2, ... over all
+/// workers). `None` = this family's space is exhausted at that index.
+pub fn explore(prop: &str, seed: u64, index: u64, thorough: bool, st: &mut Stats) -> Option<Vec<Replay>> {
     match family_of(prop) {
-        "D" => dfamily::explore(prop, seed, thorough, st),
+        "D" => {
+            let mut v = dfamily::explore(prop, seed, thorough, st);
+            if prop == "C13" {
+                v.extend(crate::zoo::explore_setup_for_c13(index, seed, st));
+            }
+            Some(v)
+        }
+        "Z" => crate::zoo::explore(index, seed, thorough, st),
+        "W9" => Some(crate::w9::explore(seed, st)),
         _ => panic!("no engine for property {}", prop),
     }
 }
@@ -58,6 +70,8 @@ pub fn explore(prop: &str, seed: u64, thorough: bool, st: &mut Stats) -> Vec<Rep
 pub fn eval(r: &Replay) -> EvalOut {
     match r.family.as_str() {
         "D" => dfamily::eval_replay(r),
+        "Z" => crate::zoo::eval_replay(r),
+        "W9" => crate::w9::eval_replay(r),
         f => panic!("unknown family {}", f),
     }
 }
@@ -105,9 +119,11 @@ pub fn cmd_worker(a: &[String]) {
         let seed = base.wrapping_add(offset).wrapping_add(k.wrapping_mul(stride));
         CUR_SEED.store(seed, std::sync::atomic::Ordering::SeqCst);
         CUR_K.store(k, std::sync::atomic::Ordering::SeqCst);
-        let r = std::panic::catch_unwind(std::panic::AssertUnwindSafe(|| explore(&prop, seed, thorough, &mut st)));
+        let index = offset + k * stride;
+        let r = std::panic::catch_unwind(std::panic::AssertUnwindSafe(|| explore(&prop, seed, index, thorough, &mut st)));
         match r {
-            Ok(reps) => {
+            Ok(None) => break,
+            Ok(Some(reps)) => {
                 for rep in reps {
                     // the parent keeps the first record per class; do not flood it
                     let n = reported.entry(rep.class.clone()).or_insert(0);
